@@ -22,9 +22,31 @@
  * the data pointer of the binding points to. */
 #include <stddef.h>
 #include <stdlib.h>
+/* allocations made by bindings.c are counted and registered, so that a node the library
+ * forgets is reported for the case at hand (L:n) and released, instead of being blamed by
+ * LeakSanitizer on whichever case happens to be the last of the process */
 static long c16_allocs;
-static void *c16_malloc(size_t n) { c16_allocs++; return malloc(n); }
-static void c16_free(void *p) { if(p) c16_allocs--; free(p); }
+#define C16_MAXLIVE 8192
+static void *c16_live[C16_MAXLIVE];
+static void *c16_malloc(size_t n)
+{
+  void *p = malloc(n);
+  c16_allocs++;
+  for(int i = 0; i < C16_MAXLIVE; i++) if(!c16_live[i]) { c16_live[i] = p; break; }
+  return p;
+}
+static void c16_free(void *p)
+{
+  if(!p) return;
+  c16_allocs--;
+  for(int i = 0; i < C16_MAXLIVE; i++) if(c16_live[i] == p) { c16_live[i] = NULL; break; }
+  free(p);
+}
+static void c16_release_forgotten(void)
+{
+  for(int i = 0; i < C16_MAXLIVE; i++) if(c16_live[i]) { free(c16_live[i]); c16_live[i] = NULL; }
+  c16_allocs = 0;
+}
 #define malloc c16_malloc
 #define free   c16_free
 #include "bindings.c"
@@ -188,8 +210,7 @@ static void do_act(const Act *a)
         tickit_bindings_unbind_and_destroy(&bindings, NULL);
         printf(" x");
         if(depth == 0) {
-          if(c16_allocs) printf(" L:%ld", c16_allocs);
-          c16_allocs = 0;
+          if(c16_allocs) { printf(" L:%ld", c16_allocs); c16_release_forgotten(); }
           new_object();
         }
       }
@@ -244,6 +265,7 @@ int main(void)
     else if(mode == 'T') tickit_term_unref(tt);
     else tickit_pen_unref(pen);
     quiet = 0;
+    if(mode == 'D' && c16_allocs) { printf(" L:%ld", c16_allocs); c16_release_forgotten(); }
     for(int i = 0; i < nrecs; i++) free(recs[i]);
     printf("\n");
     fflush(stdout);
